@@ -5,7 +5,7 @@ from hypothesis import strategies as st
 
 from conda_content_trust import authentication as A
 
-from vlib import cfgunit, configrun, gen_deleg, gen_json as G, ref_schema, ref_verify as RV, related
+from vlib import cfgunit, configrun, hostile, gen_deleg, gen_json as G, ref_schema, ref_verify as RV, related
 from vlib.runner import Unit, Violation
 from vlib import clicheck as _clicheck
 from vlib import threaded as _threaded
@@ -95,6 +95,9 @@ def check_case(case):
                         bucket=("false accept" if observed == "accept" else "false reject/class " + observed)
                         + " verify_delegation")
     probes = history_probes(role, U, T, gpg)
+    if expect.kind == "reject":
+        probes += hostile.never_accepts(lambda: (lambda u=copy.deepcopy(U), t=copy.deepcopy(T): A.verify_delegation(role, u, t, gpg=gpg)),
+                                        "verify_delegation(%r)" % (role,), expect.why)
     sat = satisfied_roles(case)
     delegated = set(T["signed"]["delegations"])
     only_untrusted = (role not in delegated and type(U["signed"]) is dict
